@@ -5,18 +5,22 @@
     [Content.check_valid c = Ok tt], and that is [valid_spec c] on [wf_domain].  Here: whenever such a content can be
     read as an extension of the working model ([Link.Abs.of_content c = Some e]: header fields well typed, each key in
     exactly one class dictionary of a class valid for the shape), that extension is [Ext.Spec.valid] -- PROVIDED its
-    extents are positive and no key sits in a varying class of multiplicity one; both provisos are necessary
-    (check_valid does not look there: finding N14).  Conversely the gates let the content of every valid extension
-    through. *)
+    extents are positive and every varying class of multiplicity one holds exactly one value per key ([mult1_single],
+    implied by [nondegenerate]); both provisos are necessary (check_valid does not look there: finding N14 a, c).
+    The third blind spot (N14 b, keys in dictionaries of classes that are not valid for the shape) makes [of_content]
+    UNDEFINED: such accepted contents fall outside the partial theorem (third witness of C10_gate_ext_refuted); after
+    dropping the stale dictionaries ([prune_stale], invisible to check_valid) every accepted, typed content abstracts
+    (C10_prune_abstracts).  Conversely the gates let the content of every valid extension through. *)
 From Coq Require Import List Bool Arith NArith ZArith QArith Lia.
 From DV Require Import Common.Res Common.Str Common.Jv.
 From DV Require Import Ext.Types Ext.Classes Ext.Seq Ext.Model Ext.Spec Ext.ValidFacts Ext.ProofsValidBase.
 From DV Require Import Ext.ProofsSimplifyCanon.
-From DV Require Import Link.Abs Link.ProofsTop Link.ProofsRules Link.Examples.
+From DV Require Import Link.Abs Link.ProofsOf Link.ProofsTop Link.ProofsRules Link.ProofsPrune Link.Examples.
 Import ListNotations.
 Local Open Scope nat_scope.
 
-(** FULL STATEMENT (false, see C10_gate_ext_refuted): accepted content that abstracts to [e] -> valid e. *)
+(** FULL STATEMENT (false, see C10_gate_ext_refuted): accepted content that abstracts to [e] -> valid e.
+    [abstracts_valid tokq c] := forall e, of_content tokq c = Some e -> positive extents -> mult1_single e -> valid e. *)
 Theorem C10_gate_ext_partial :
   forall (tokq : str -> option Q),
     (forall c, CM.check_valid c = Ok tt -> abstracts_valid tokq c) /\
@@ -41,28 +45,56 @@ Proof.
   vm_compute. repeat split; try reflexivity. repeat constructor.
 Qed.
 
-(** both provisos are needed: contents that every gate accepts and that abstract to an extension which is NOT valid *)
+(** both provisos are needed: contents that every gate accepts and that abstract to an extension which is NOT valid
+    (1: positive extents hold, a multiplicity-one class holds three values; 2: [mult1_single] holds, a zero extent);
+    and (3) the condition [of_content c = Some e] itself hides a blind spot: an accepted content with a key in a stale
+    dictionary has NO abstraction *)
 Theorem C10_gate_ext_refuted :
   (exists c e, CM.from_runtime_repr c = Ok c /\ of_content tokq_dec c = Some e /\
                Forall (fun n => 1 <= n) (shape (hdr_of e)) /\ ~ valid e) /\
-  (exists c e, CM.from_runtime_repr c = Ok c /\ of_content tokq_dec c = Some e /\ nondegenerate e /\ ~ valid e).
+  (exists c e, CM.from_runtime_repr c = Ok c /\ of_content tokq_dec c = Some e /\ mult1_single e /\ ~ valid e) /\
+  (exists c, CM.from_runtime_repr c = Ok c /\ of_content tokq_dec c = None).
 Proof.
-  split.
+  split; [|split].
   - exists (to_content qtok_dec lx_degenerate), lx_degenerate.
     split; [vm_compute; reflexivity|]. split; [vm_compute; reflexivity|].
     split; [repeat constructor | apply not_valid_b; vm_compute; reflexivity].
   - exists (to_content qtok_dec lx_zero), lx_zero.
     split; [vm_compute; reflexivity|]. split; [vm_compute; reflexivity|].
     split; [intros k c vs [[= <- <- <-]|[]] Hc; exfalso; apply Hc; reflexivity | apply not_valid_b; vm_compute; reflexivity].
+  - exists (to_content qtok_dec lx_untight). split; vm_compute; reflexivity.
+Qed.
+
+(** every accepted content whose header and dictionaries are well typed ([typed]: positive int extents, readable affine
+    and slice dimension, every class dictionary present a dict with distinct names, lists under varying classes)
+    abstracts once the dictionaries of the classes that are not valid for its shape are dropped *)
+Theorem C10_prune_abstracts :
+  forall (tokq : str -> option Q) (c : jv),
+    CM.check_valid c = Ok tt -> typed tokq c -> exists e, of_content tokq (prune_stale c) = Some e.
+Proof. exact prune_abstracts. Qed.
+
+Example C10_prune_abstracts_nonvacuous :
+  CM.check_valid (to_content qtok_dec lx_untight) = Ok tt /\ typed tokq_dec (to_content qtok_dec lx_untight) /\
+  of_content tokq_dec (to_content qtok_dec lx_untight) = None /\
+  match of_content tokq_dec (prune_stale (to_content qtok_dec lx_untight)) with
+  | Some e => entries e = [] /\ has_time (hdr_of e) = false /\ validb e = true
+  | None => False
+  end /\
+  prune_stale (to_content qtok_dec lx5) = to_content qtok_dec lx5.
+Proof.
+  split; [vm_compute; reflexivity|]. split.
+  - apply typed_to_content; [repeat constructor | apply aff_rt_dec_b; vm_compute; reflexivity|].
+    intros c. unfold class_entries. cbn [entries lx_untight filter fst snd]. destruct (cls_eqb TSamples c); repeat constructor; intros [].
+  - split; [vm_compute; reflexivity|]. split; [vm_compute; repeat split; reflexivity | vm_compute; reflexivity].
 Qed.
 
 (** the gates accept the content of every valid extension *)
 Theorem C10_gates_accept_valid :
-  forall (qtok : Q -> str) (e : ext jv),
+  forall (qtok : Q -> str) (reo : option (list (list Q))) (e : ext jv),
     valid e ->
-    CM.from_runtime_repr (to_content qtok e) = Ok (to_content qtok e) /\
-    (forall (parse : str -> res jv) s, parse s = Ok (to_content qtok e) -> CM.from_json parse s = Ok (to_content qtok e)) /\
-    CM.wrapper_init [(TC.dcm_meta_ecode, to_content qtok e)] false JNull = Ok (Some 0, to_content qtok e).
+    CM.from_runtime_repr (to_content_r qtok reo e) = Ok (to_content_r qtok reo e) /\
+    (forall (parse : str -> res jv) s, parse s = Ok (to_content_r qtok reo e) -> CM.from_json parse s = Ok (to_content_r qtok reo e)) /\
+    CM.wrapper_init [(TC.dcm_meta_ecode, to_content_r qtok reo e)] false JNull = Ok (Some 0, to_content_r qtok reo e).
 Proof. exact gates_accept_valid. Qed.
 
 Example C10_gates_accept_valid_nonvacuous :
@@ -77,9 +109,9 @@ Proof. split; [apply lx4_ok|]. split; vm_compute; reflexivity. Qed.
     constants are singletons, the keys of one class are distinct; [hdr_tight]: base dictionaries exactly for the classes
     of the shape, as make_empty builds them.  The forward direction needs neither.) *)
 Theorem C10_valid_iff_rules :
-  forall (qtok : Q -> str) (e : ext jv),
-    (valid e -> CR.valid_rules (to_content qtok e) = true) /\
-    (storable e -> hdr_tight (hdr_of e) -> (valid e <-> CR.valid_rules (to_content qtok e) = true)).
+  forall (qtok : Q -> str) (reo : option (list (list Q))) (e : ext jv),
+    (valid e -> CR.valid_rules (to_content_r qtok reo e) = true) /\
+    (storable e -> hdr_tight (hdr_of e) -> (valid e <-> CR.valid_rules (to_content_r qtok reo e) = true)).
 Proof. intros qtok e. split; [apply valid_rules_to | apply valid_iff_rules]. Qed.
 
 Example C10_valid_iff_rules_nonvacuous :
